@@ -58,7 +58,14 @@ func runSolver(s solverCfg, file string, timeoutS int) (result, output string, m
 	_ = cmd.Run()
 	ms = time.Since(start).Milliseconds()
 	output = out.String()
-	first := strings.TrimSpace(strings.SplitN(strings.TrimSpace(output), "\n", 2)[0])
+	first := ""
+	for _, l := range strings.Split(output, "\n") {
+		l = strings.TrimSpace(l)
+		if l == "sat" || l == "unsat" || l == "unknown" || l == "timeout" {
+			first = l
+			break
+		}
+	}
 	switch first {
 	case "unsat", "sat", "unknown":
 		return first, output, ms
